@@ -512,3 +512,116 @@ def _hc_labels():
     exp = {'afi': 1, 'safi': 4, 'mask': 24, 'prefix': bytes([10, 9, 9]), 'labels': (100, 200), 'rd': None, 'pid': None, 'nexthop': '192.0.2.1', 'attrs': {}}
     real = Labels.make_labels.__func__
     return _probe('ebgp4', text, exp) is None and _patched(Labels, 'make_labels', classmethod(lambda cls, labels, bos=True: real(cls, labels[:1], bos)), lambda: _probe('ebgp4', text, exp))
+
+
+# ---------------------------------------------------------------------------------------------------------------------
+# one route definition announced to SEVERAL neighbors (the API path: parsed once, Configuration.announce_route hands the
+# same Route object to every selected neighbor): each session sends ITS OWN local address for "next-hop self", in
+# whatever order the neighbors are served, and again after a withdraw / re-announce.
+MANY = """
+neighbor 127.0.0.{k} {{
+	router-id 1.2.3.4;
+	local-address {local};
+	local-as 65000;
+	peer-as 6500{k};
+	family {{ ipv4 unicast; ipv6 unicast; }}
+}}
+"""
+LOCALS = ['192.0.2.1', '198.51.100.1', '203.0.113.1']
+
+
+def _many_case(texts, order):
+    from exabgp.configuration.configuration import Configuration
+    from exabgp.bgp.message.update.collection import UpdateCollection
+    from spec.update import decode_update
+
+    from exabgp.rib import RIB
+
+    inp = {'routes': texts, 'neighbor_order': order}
+    RIB._cache.clear()  # one case = one ExaBGP process: the per-process Adj-RIB cache (keyed by neighbor name) starts empty
+    conf_text = ''.join(MANY.format(k=k + 1, local=LOCALS[k]) for k in range(3))
+    conf = Configuration([conf_text], text=True)
+    if not conf.reload():
+        raise RuntimeError(f'harness: three-neighbor configuration refused: {conf.error}')
+    names = list(conf.neighbors.keys())
+    if len(names) != 3:
+        raise RuntimeError('harness: expected three neighbors')
+    names = [names[i] for i in order]
+    for text in texts:
+        routes = conf.parse_route_text(text, 'announce')
+        if len(routes) != 1:
+            raise RuntimeError(f'harness: route text refused: {text}: {conf.error}')
+        if not conf.announce_route(names, routes[0]):
+            raise RuntimeError('harness: announce_route refused')
+    for name in names:
+        nb = conf.neighbors[name]
+        local = str(nb.session.local_address)
+        peer_as = int(nb.session.peer_as)
+        neg, _, _ = H.negotiated(nb, H.peer_open_bytes(peer_as, 180, '9.9.9.9', H.std_caps(peer_as)))
+        seen = {}
+        for u in nb.rib.outgoing.updates(False):
+            if not isinstance(u, UpdateCollection):
+                continue
+            for m in u.messages(neg):
+                d = decode_update(bytes(m), (lambda a, s: False))
+                nh3 = [v for _f, t, v in d['attributes'] if t == 3]
+                for p in d['nlri']:
+                    seen[str(p)] = ('.'.join(str(b) for b in nh3[0]) if nh3 else 'ABSENT')
+                for _a, _s, nh, entries in d['mp_reach']:
+                    for e in entries:
+                        seen[str(e)] = nh.hex()
+        for text in texts:
+            v4 = ':' not in text.split()[1]
+            vals = [v for k_, v in seen.items()]
+            if v4:
+                want = local
+                if want not in vals or any(v in LOCALS and v != local for v in vals):
+                    return {'what': f'"next-hop self" of a route announced to three neighbors: the session with local address {local} sends NEXT_HOP {sorted(set(vals))}', 'input': inp, 'session': local}
+    return None
+
+
+@bounded('C01', 'self-many-neighbors')
+def self_many_neighbors(tier, seed):
+    import itertools
+
+    texts = [
+        ['route 10.0.0.0/24 next-hop self'],
+        ['route 10.0.0.0/24 next-hop self local-preference 200'],
+        ['route 10.0.0.0/24 next-hop self', 'route 10.0.1.0/24 next-hop self med 5'],
+        ['route 10.0.0.0/24 next-hop self community [ 65000:1 ] as-path [ 65010 65020 ]'],
+    ]
+    fails, evals = [], 0
+    for tx in texts:
+        for order in itertools.permutations(range(3)):
+            evals += 1
+            f = _many_case(tx, list(order))
+            if f:
+                fails.append(f)
+    return {'evaluations': evals, 'distinct_nontrivial': evals, 'bound': '4 route sets (one or two ipv4 routes with "next-hop self", with and without other attributes) x 6 orders of three neighbors with different local addresses; parsed once by Configuration.parse_route_text, handed to all by Configuration.announce_route, each Adj-RIB-Out drained and decoded by the reference decoder', 'rule': 'one case = (route texts, neighbor order)', 'samples': [{'routes': texts[0], 'neighbor_order': [0, 1, 2]}], 'failures': fails}
+
+
+@replayer('C01', 'self-many-neighbors')
+def _replay_many(f):
+    return _many_case(f['input']['routes'], f['input']['neighbor_order']) is None
+
+
+@harness_canary('C01', 'resolve_self swaps the NEXT_HOP inside the shared collection')
+def _hc_shared_collection():
+    from exabgp.bgp.neighbor.neighbor import Neighbor
+    from exabgp.bgp.message.update.attribute import Attribute
+
+    real = Neighbor.resolve_self
+
+    def bad(self, route):
+        r = real(self, route)
+        if r is not route and Attribute.CODE.NEXT_HOP in route.attributes and Attribute.CODE.NEXT_HOP in r.attributes:
+            nh = r.attributes[Attribute.CODE.NEXT_HOP]
+            route.attributes.remove(Attribute.CODE.NEXT_HOP)
+            route.attributes.add(nh)
+        return r
+
+    Neighbor.resolve_self = bad
+    try:
+        return _many_case(['route 10.0.0.0/24 next-hop self'], [0, 1, 2]) is not None
+    finally:
+        Neighbor.resolve_self = real
